@@ -26,13 +26,13 @@ assumed('re.Pattern.match', params={'self': 'Ref[re.Pattern]', 'string': 'str'},
 model('datatypes.RegularExpressionConversion', fields={'_rx': 'Ref[re.Pattern]'})
 contract('datatypes.RegularExpressionConversion.__call__',
          params={'value': 'str'}, returns='str',
-         ensures=[Clause('result == value', carries='C09', label='returns-input')],
-         raises=[Raise('ValueError', when='not rx_whole(self._rx, value)', carries='C09', label='no-match')])
+         ensures=[Clause('result == value', carries='C09,C10', label='returns-input')],
+         raises=[Raise('ValueError', when='not rx_whole(self._rx, value)', carries='C09,C10', label='no-match')])
 
 contract('datatypes.BasicKeyConversion.__call__',
          params={'value': 'str'}, returns='str',
-         ensures=[Clause('result == value.lower()', carries='C09', label='lower-cased')],
-         raises=[Raise('ValueError', when='not rx_whole(self._rx, value)', carries='C09', label='no-match')])
+         ensures=[Clause('result == value.lower()', carries='C09,C10', label='lower-cased')],
+         raises=[Raise('ValueError', when='not rx_whole(self._rx, value)', carries='C09,C10', label='no-match')])
 
 # --- boolean -------------------------------------------------------------------------
 contract('datatypes.asBoolean', params={'s': 'str'}, returns='bool',
